@@ -146,7 +146,7 @@ int detect_alphabet(struct msa* msa)
         double DNA[128];
         double protein[128];
         char DNA_letters[12]= "acgtunACGTUN";
-        char protein_letters[40] = "acdefghiklmnpqrstvwyACDEFGHIKLMNPQRSTVWY";
+        char protein_letters[42] = "acdefghiklmnpqrstuvwyACDEFGHIKLMNPQRSTUVWY";
 
         double dna_prob;
         double prot_prob;
@@ -162,8 +162,8 @@ int detect_alphabet(struct msa* msa)
                 DNA[(int) DNA_letters[i]] = log(0.9999 * 1.0 / 12.0);
         }
 
-        for(i = 0 ; i < 40;i++){
-                protein[(int) protein_letters[i]] = log(0.9999 * 1.0 / 40.0);
+        for(i = 0 ; i < 42;i++){
+                protein[(int) protein_letters[i]] = log(0.9999 * 1.0 / 42.0);
         }
         /* dna_prob = 0.0; */
         /* prot_prob = 0.0; */
